@@ -49,6 +49,7 @@ type Inst struct {
 	Ambig    bool
 	Shared   bool
 	Preflight bool
+	Call     *CallDef
 }
 
 // ForkGroup is all job processes of one fork directory of one node.
@@ -544,7 +545,7 @@ func (e *Eval) evalCallable(c *CallDef, args map[string]*TV, sc *scope, index, m
 	}
 	if st := e.P.Stage(c.Callee); st != nil {
 		inst := &Inst{Node: path, Stage: st, Index: index + "/" + c.Id, MapKey: mapKey, MapKind: mapKind,
-			Args: map[string]interface{}{}, Preflight: c.Preflight}
+			Args: map[string]interface{}{}, Preflight: c.Preflight, Call: c}
 		deps := append([]*Inst(nil), extraDeps...)
 		for _, f := range st.Ins {
 			a := args[f.Name]
